@@ -25,6 +25,10 @@ MUT = [
     ('set_map_keeps_equal_end', 'C01', True, [(EC, 'emap.extend(x for x in vault_map[odf_idx:] if x > new_end)', 'emap.extend(x for x in vault_map[odf_idx:] if x >= new_end)')]),
     ('overlap_off_by_one_two_sites', 'C01', True, [(EC, '            if is_repeated > deleting:\n', '            if is_repeated >= deleting:\n')]),
     ('negative_y_from_width', 'C01', True, [(TB, '        if y and y < 0:\n            y = increment(y, self.height)\n        return (x, y)', '        if y and y < 0:\n            y = increment(y, self.width)\n        return (x, y)')]),
+    ('insert_row_no_update_width', 'C07', True, [(TB, '        row_back.y = y  # type: ignore\n        # Update width if necessary\n        self._update_width(row_back)  # type: ignore\n', '        row_back.y = y  # type: ignore\n')]),
+    ('row_insert_pad_short', 'C01', True, [(RW, '            self.append_cell(Cell(repeated=diff), _repeated=diff, clone=False)\n            cell_back = self.append_cell(cell, clone=clone)\n        return cell_back\n\n    def extend_cells', '            self.append_cell(Cell(repeated=diff - 1), _repeated=diff - 1, clone=False)\n            cell_back = self.append_cell(cell, clone=clone)\n        return cell_back\n\n    def extend_cells')]),
+    ('delete_map_erase_slice', 'C01', True, [(EC, '            vault_map[:odf_idx] + [(x - 1) for x in vault_map[odf_idx + 1 :]],', '            vault_map[:odf_idx] + [(x - 1) for x in vault_map[odf_idx:]],')]),
+    ('overlap_next_idx_one_site', 'C01', True, [(EC, '        if repeated_before >= 1:\n            next_idx += 1\n        while deleting > 0:', '        while deleting > 0:')]),
     ('traverse_end_exclusive', 'C01', True, [(RW, '                for _i in range(repeated or 1):\n                    if x <= end:\n                        if cell is None:', '                for _i in range(repeated or 1):\n                    if x < end:\n                        if cell is None:')]),
     ('row_values_pad_short', 'C01', True, [(TB, '                values.extend([None] * (self.width - len(values)))\n        return values\n\n    def get_row_sub_elements', '                values.extend([None] * (self.width - len(values) - 1))\n        return values\n\n    def get_row_sub_elements')]),
     ('cell_set_repeated_lt1', 'C07', True, [(CE, '        if repeated is None or repeated < 2:\n            with contextlib.suppress(KeyError):\n                self.del_attribute("table:number-columns-repeated")',
